@@ -15,7 +15,8 @@ What is proved here, for every input (no bound on sizes):
   mid-chain inference), `chain_vs_pairs_code` (the same for the code as probed),
   `chain_vs_pairs_counterexample` (it fails without that inference: the unchanged code);
 * faithfulness — `triggers_recorded`, `triggers_origin`, `expression_meaning`: the recorded trigger
-  expressions are exactly the written left-hand sides, and mean them;
+  expressions are exactly the written left-hand sides, and mean them; `optionality_recorded`,
+  `optionality_origin`: the optionality table holds what the right-hand / lone nodes say;
 * `node_text_injective`: valid node texts determine their nodes;
 * malformed text — `malformed_rejected_partial_*`: leading / dangling operators, doubled operators, names
   separated by white space, bad nodes (on the checked lines) are rejected with GraphParseError.
@@ -152,6 +153,26 @@ theorem triggers_origin {m : Bool} {L : List SLine} {st : St} (h : parseStructWi
       ex = (exprOf u).render id ∧ v = ((exprOf u).leaves, r.suicide) :=
   struct_trigs_origin h hlk hne
 
+/-- **Output optionality is what is written (1).**  In an accepted graph a right-hand or lone node with
+an explicit qualifier (other than `finish`) and no suicide mark records that output - under its standard
+name - as optional iff the node carries `?`. -/
+theorem optionality_recorded {m : Bool} {L : List SLine} {st : St} (h : parseStructWith m L = some st)
+    {p : SPair} (hp : p ∈ pairsOf L) {r : Node} (hr : r ∈ p.rights) (hs : r.suicide = false)
+    (hq : r.qual ≠ []) (hz : stdQual r.qual ≠ []) (hf : stdQual r.qual ≠ outFinished) :
+    st.opts.lookup (r.name, stdQual r.qual) = some r.opt :=
+  struct_opts_recorded h hp hr hs hq hz hf
+
+/-- **Output optionality is what is written (2).**  Every recorded optionality entry of an accepted
+graph is declared by an occurrence of that task on the right of a pair (or as a lone / first node)
+without suicide mark: its qualifier or the inferred `:succeeded` with the node's `?`, or `succeeded` /
+`failed` (optional) through `:finish`. -/
+theorem optionality_origin {m : Bool} {L : List SLine} {st : St} (h : parseStructWith m L = some st)
+    {n o : Str} {b : Bool} (hlk : st.opts.lookup (n, o) = some b) :
+    ∃ p ∈ pairsOf L, ∃ r ∈ p.rights, n = r.name ∧ r.suicide = false ∧
+      ∃ f, (o = rightOutput (eocOf L) (midOf m L) f r ∧ b = r.opt) ∨
+           (rightOutput (eocOf L) (midOf m L) f r = outFinished ∧ (o = outSucceeded ∨ o = outFailed) ∧ b = true) :=
+  struct_opts_origin h hlk
+
 /-- **The recorded expression means the written one**: under any valuation of the atoms
 `NAME[OFFSET]:OUTPUT`, the recorded expression of `t` is true iff `t` is, reading a plain name as
 `:succeeded`, a qualifier as its standard output and `:finish` as succeeded-or-failed. -/
@@ -247,6 +268,11 @@ example : ∀ l, l ∈ [SLine.lone [nd 'a'], SLine.lone [nd 'b']] ↔ l ∈ [SLi
 
 /-- an accepted graph with a conditional left side: hypotheses of `triggers_recorded` are met -/
 example : (parseStructWith false [.chain (.or (.leaf (nd 'a')) (.leaf ndFailOpt)) [[nd 'c']]]).isSome = true := by
+  decide
+
+/-- `x => b:fail?` is accepted: the hypotheses of `optionality_recorded` are met -/
+example : (parseStructWith false [.chain (.leaf (nd 'x')) [[ndFailOpt]]]).isSome = true ∧
+    ndFailOpt.qual ≠ [] ∧ stdQual ndFailOpt.qual ≠ [] ∧ stdQual ndFailOpt.qual ≠ outFinished := by
   decide
 
 /-- malformed classes are inhabited -/
